@@ -277,6 +277,8 @@ func (h *H) batches() {
 		if h.judgeSeq("batch", decSteps, 1) {
 			continue
 		}
+		// phase 4 (below) needs a second key
+		h.twoKeys(alg, s, efn, dfn)
 		// phase 3: mixed — a FAILING decryption (bad tag) after a good one must not touch the good result
 		if len(decSteps) >= 2 && s.auth {
 			bad := decSteps[1]
@@ -286,6 +288,70 @@ func (h *H) batches() {
 			h.judgeSeq("batch-then-failing-call", []Case{decSteps[0], bad, decSteps[len(decSteps)-1]}, 1)
 			h.res.Hit("batch:mixed:" + alg)
 		}
+	}
+}
+
+// twoKeys: two different keys of the same size used alternately with the same algorithm — each
+// ciphertext must open under its own key only (a cipher object cached per algorithm, or any other
+// state keyed too coarsely, would encrypt under the first key it saw).
+func (h *H) twoKeys(alg string, s algSpec, efn, dfn string) {
+	ka, kb := h.rng.Bytes(s.keyLen), h.rng.Bytes(s.keyLen)
+	ja, _ := h.octKey(ka)
+	jb, _ := h.octKey(kb)
+	n := 32
+	nonce := h.rng.Bytes(s.nonceLen)
+	ad := h.rng.Bytes(4)
+	if s.family == "kw" {
+		ad = nil
+	}
+	m1, m2 := h.rng.Bytes(n), h.rng.Bytes(n)
+	e1 := callEnc(efn, alg, ja, nonce, m1, ad)
+	e2 := callEnc(efn, alg, jb, nonce, m2, ad)
+	h.res.Hit("batch:two-keys:" + alg)
+	if e1.class != "ok" || e2.class != "ok" {
+		return
+	}
+	mk := func(key, ct, tag, orig []byte, mon string) Case {
+		return Case{Family: "sym", Monitor: mon, Fn: dfn, Alg: alg, Kind: "oct", Key: hx(key), Nonce: hx(nonce), Data: hx(ct), Tag: hx(tag), AD: hx(ad), Orig: hx(orig)}
+	}
+	// each under its own key; compared with the model as genuine round trips
+	for _, t := range []struct {
+		key []byte
+		e   outcome
+		m   []byte
+		jk  int
+	}{{ka, e1, m1, 0}, {kb, e2, m2, 1}} {
+		jk := ja
+		if t.jk == 1 {
+			jk = jb
+		}
+		do := callDec(dfn, alg, jk, nonce, t.e.a, t.e.b, ad)
+		c := mk(t.key, t.e.a, t.e.b, t.m, "roundtrip")
+		h.res.Count("twokeys "+alg+hx(t.key), true)
+		if do.class != "ok" || !bytesEq(do.a, t.m) {
+			c.Got = canonDec(do)
+			h.res.Violate("sym-roundtrip", "Decrypt(Encrypt(p)) != p when two keys are used alternately with the same algorithm", c)
+		}
+		ec := Case{Family: "sym", Monitor: "roundtrip", Fn: efn, Alg: alg, Kind: "oct", Key: hx(t.key), Nonce: hx(nonce), Data: hx(t.m), AD: hx(ad)}
+		h.queue("two keys: encrypt output = model", symLine(efn, alg, "oct", t.key, nonce, t.m, nil, ad), canonEnc(t.e), ec)
+		h.queue("two keys: decrypt output = model", symLine(dfn, alg, "oct", t.key, nonce, t.e.a, t.e.b, ad), canonDec(do), c)
+	}
+	// the other key must not open it
+	x1 := callDec(dfn, alg, jb, nonce, e1.a, e1.b, ad)
+	x2 := callDec(dfn, alg, ja, nonce, e2.a, e2.b, ad)
+	for i, x := range []outcome{x1, x2} {
+		key, ct, tag, m := kb, e1.a, e1.b, m1
+		if i == 1 {
+			key, ct, tag, m = ka, e2.a, e2.b, m2
+		}
+		c := mk(key, ct, tag, m, "crosskey")
+		c.Mut = "decrypted with the OTHER key"
+		h.res.Count("twokeys x "+alg+hx(key), true)
+		if x.class == "ok" && (s.auth || bytesEq(x.a, m)) {
+			c.Got = canonDec(x)
+			h.res.Violate("sym-crosskey-accepted", "a ciphertext opened under a different key", c)
+		}
+		h.queue("two keys: other key outcome = model", symLine(dfn, alg, "oct", key, nonce, ct, tag, ad), canonDec(x), c)
 	}
 }
 
